@@ -32,11 +32,11 @@ func hashOf(h func() hash.Hash, parts ...[]byte) []byte {
 
 // Rogue13 is the scripted server.
 type Rogue13 struct {
-	S        *Sim
-	N        *SimNet
-	Self     net.Addr
-	Peer     net.Addr
-	SkipAuth bool // leave out Certificate and CertificateVerify
+	S     *Sim
+	N     *SimNet
+	Self  net.Addr
+	Peer  net.Addr
+	Chain [][]byte // if set, a Certificate message with this chain is sent - but never a CertificateVerify
 
 	col        *HsCollector
 	suite      suite13
@@ -235,6 +235,17 @@ func (r *Rogue13) answerHello(ch *HsMsg) error {
 
 	ee := []byte{0, 0}
 	r.transcript = append(r.transcript, canonical13(8, ee)...)
+	var cert []byte
+	if len(r.Chain) > 0 {
+		var list []byte
+		for _, c := range r.Chain {
+			list = append(list, byte(len(c)>>16), byte(len(c)>>8), byte(len(c)))
+			list = append(list, c...)
+			list = append(list, 0, 0)
+		}
+		cert = append([]byte{0, byte(len(list) >> 16), byte(len(list) >> 8), byte(len(list))}, list...)
+		r.transcript = append(r.transcript, canonical13(11, cert)...)
+	}
 	fk := ExpandLabel13(h, r.sHS, "finished", nil, r.suite.hlen)
 	mac := hmac.New(h, fk)
 	mac.Write(hashOf(h, r.transcript))
@@ -250,14 +261,19 @@ func (r *Rogue13) answerHello(ch *HsMsg) error {
 	keys, _ := NewKeys13(r.suite.id, r.sHS)
 	d0 := plaintextRecord(22, 0, dtlsHs(2, 0, sh))
 	d1rec := keys.Seal13(2, 0, nil, 22, dtlsHs(8, 1, ee), 0)
-	d2rec := keys.Seal13(2, 1, nil, 22, dtlsHs(20, 2, fin), 0)
+	var d2rec []byte
+	if cert != nil {
+		d2rec = append(keys.Seal13(2, 1, nil, 22, dtlsHs(11, 2, cert), 0), keys.Seal13(2, 2, nil, 22, dtlsHs(20, 3, fin), 0)...)
+	} else {
+		d2rec = keys.Seal13(2, 1, nil, 22, dtlsHs(20, 2, fin), 0)
+	}
 	r.flight = [][]byte{d0, append(d1rec, d2rec...)}
 	r.sentFlight = true
 	r.flightAt = r.S.Now()
 	for _, d := range r.flight {
 		r.N.Inject(time.Millisecond, r.Self, r.Peer, d)
 	}
-	r.S.Fault("rogue13-flight-without-certificate")
+	r.S.Fault("rogue13-flight-without-proof")
 
 	return nil
 }
